@@ -185,5 +185,61 @@ structure TableCtor where
   slot : IE
   deriving DecidableEq, Repr
 
+/-- an elementary statement inside the loops of `merge()` -/
+inductive MAct where
+  | pushOld      -- tempPairs.push_back(*old)
+  | pushAdded    -- tempPairs.push_back(*added)
+  | eraseOld     -- old.eraseToHere()   (the iterator then points to the next old entry)
+  | eraseAdded   -- added.eraseToHere()
+  deriving DecidableEq, Repr
+
+/-- the body of one loop as a decision tree (a statement behind an `if` is distributed into both branches, `continue`
+cuts the rest off) -/
+inductive MTree where
+  | acts (l : List MAct)
+  | ite (c : BE) (t e : MTree)
+  | unknown
+  deriving Repr
+
+/-- `while(<old != endold if needOld> && <added != endadded if needAdded>) <body>` -/
+structure MLoop where
+  needOld : Bool
+  needAdded : Bool
+  body : MTree
+  deriving Repr
+
+/-- a statement of the first branch of `merge()` (old list empty) -/
+inductive CopyAct where
+  | assignNewToLocal   -- localIndices_ = newIndices_
+  | clearNew           -- newIndices_.clear()
+  | unknown
+  deriving DecidableEq, Repr
+
+/-- data members of `ParallelLocalIndex<T>` / `LocalIndex` -/
+inductive Member where
+  | loc | attr | pub | state     -- localIndex_, attribute_, public_, state_
+  deriving DecidableEq, Repr
+
+/-- what a member initialiser / an assignment stores: a literal or the i-th parameter (casts dropped) -/
+inductive Init where
+  | zero | falseV | trueV | valid | deleted
+  | param (i : Nat)
+  deriving DecidableEq, Repr
+
+/-- a constructor of a local index class: its member initialisers (a member not mentioned is `zero`/`falseV`) -/
+structure LIdxCtor where
+  loc : Init
+  attr : Init
+  pub : Init
+  state : Init
+  deriving DecidableEq, Repr
+
+/-- the member initialisers of `ParallelIndexSet()` (the two lists are default-constructed, i.e. empty) -/
+structure SetCtor where
+  state : St
+  seq : Nat
+  del : Bool
+  deriving DecidableEq, Repr
+
 end Src
 end DV.C03
